@@ -750,6 +750,25 @@ class C02Executor(Executor):
             st.heap[r] = o
             self.slist_havoc(st, r)
 
+    def _with_closures(self, body, st):
+        """The loop body plus the bodies of the local functions (closures) it calls: what such a helper appends to is
+        appended by the loop."""
+        out, seen = list(body), set()
+        work = list(body)
+        while work:
+            n = work.pop()
+            for sub in ast.walk(n):
+                if isinstance(sub, ast.Call) and isinstance(sub.func, ast.Name):
+                    v = st.lookup(sub.func.id)
+                    if isinstance(v, VFunc) and v.how == "closure" and id(v.a) not in seen and isinstance(v.a, ast.FunctionDef):
+                        seen.add(id(v.a))
+                        out.extend(v.a.body)
+                        work.extend(v.a.body)
+        return out
+
+    def mutated_refs(self, stmts, st):
+        return super().mutated_refs(self._with_closures(stmts, st), st)
+
     def _immutable_class(self, cls):
         """typing.NamedTuple subclasses (and frozen dataclasses) of the module: instances cannot be mutated by any callee."""
         node = self.module.classes.get(cls) if cls else None
@@ -760,7 +779,7 @@ class C02Executor(Executor):
         return any("frozen=True" in ast.unparse(d) for d in node.decorator_list)
 
     def _appended_in(self, body, st, ref):
-        for n in body:
+        for n in self._with_closures(body, st):
             for sub in ast.walk(n):
                 if isinstance(sub, ast.Call):
                     names = []
